@@ -50,7 +50,33 @@ fn cite_macro_defs() -> Vec<Item> {
     v.push(Item::MacroDef("mdiv".into(), vec!["d".into()], "mov bl,d div bl".into()));
     v.push(Item::MacroDef("mouter".into(), vec!["v".into()], "mset(v) mnone(_)".into()));
     v.push(Item::MacroDef("mbrk".into(), vec!["_".into()], "int 3".into()));
+    // a long argument substituted many times in front of a nested use and of message-producing statements: the
+    // expanded text is much longer than the file up to the use
+    let ops = ["mov", "add", "sub", "and", "or", "xor", "cmp", "adc"];
+    let mut body = String::new();
+    for k in 0..MFILL_OPS {
+        body.push_str(&format!("{} ax,p ", ops[k % ops.len()]));
+    }
+    body.push_str("mset(3) print flags int 3");
+    v.push(Item::MacroDef("mfill".into(), vec!["p".into()], body));
     v
+}
+
+const MFILL_OPS: usize = 48;
+fn mfill_use() -> Item {
+    let m = Loc::Mem(W::W, Mem { seg: Some(SR::ES), form: MemForm::BasedIndexed(R16::BX, R16::SI, Some(0x20)) });
+    let ops = [None, Some(Alu2::Add), Some(Alu2::Sub), Some(Alu2::And), Some(Alu2::Or), Some(Alu2::Xor), Some(Alu2::Cmp), Some(Alu2::Adc)];
+    let mut e: Vec<Ins> = Vec::new();
+    for k in 0..MFILL_OPS {
+        e.push(match ops[k % ops.len()] {
+            None => Ins::Mov(Loc::R16(R16::AX), Src::Loc(m.clone())),
+            Some(op) => Ins::Alu2(op, Loc::R16(R16::AX), Src::Loc(m.clone())),
+        });
+    }
+    e.push(Ins::Mov(Loc::R16(R16::DX), Src::Imm(3)));
+    e.push(Ins::Print(PrintCmd::Flags));
+    e.push(Ins::Int(3));
+    Item::MacroUse("mfill".into(), vec!["word es[bx,si,0x20]".into()], e)
 }
 
 #[derive(Clone, Copy, PartialEq, Eq, Debug)]
@@ -100,7 +126,8 @@ fn cite_program(rng: &mut Rng) -> CiteCase {
     }
     let n = 2 + rng.below(9);
     for _ in 0..n {
-        match rng.below(14) {
+        match rng.below(15) {
+            14 => items.push(mfill_use()),
             // the program switches single-stepping on and off by itself (trap flag through POPF): the messages after a
             // stepped stretch must cite their own lines again
             12 | 13 => {
